@@ -506,11 +506,12 @@ func (b *builder) genFields(label string, owner string, n int, union, args bool)
 		}
 		if b.c.Defaults && !union && !args && rapid.IntRange(0, 3).Draw(t, label+".def?") == 0 {
 			f.Default = b.genValue(label+".def", f.Type, 2, false)
-			if b.c.GoExec && f.Req == "optional" && f.Default != nil {
+			if k := b.undKind(f.Type); b.c.GoExec && f.Req == "optional" && f.Default != nil && !(k == "enum" || strings.HasPrefix(k, "base:") && k != "base:binary") {
 				// Thrift-Go represents an optional field with a default as a plain value whose
-				// "set" state is value != default; the executable spec does not model that convention
+				// "set" state is value != default; the executable spec models that convention for
+				// scalars (numbers, bool, string, enums) only
 				f.Default = nil
-				b.c.Excluded["optional-with-default(goexec)"]++
+				b.c.Excluded["optional-container-with-default(goexec)"]++
 			}
 		}
 		f.Doc = b.doc(label + ".f")
